@@ -162,7 +162,7 @@ mod tk {
             let mut recv = Vec::new();
             let mut werr = Vec::new();
             for t in tasks {
-                match tokio::time::timeout(Duration::from_secs(60), t).await {
+                match tokio::time::timeout(Duration::from_secs(20), t).await {
                     Ok(Ok(Ok(()))) => {}
                     Ok(Ok(Err(s))) => {
                         if s.starts_with('{') { recv.push(serde_json::from_str::<Value>(&s).unwrap()) } else { werr.push(s) }
@@ -283,14 +283,24 @@ mod sm {
             }
             let mut recv = Vec::new();
             let mut werr = Vec::new();
+            // a reader that never gets its messages must not hang the harness
+            async fn limited<T>(t: smol::Task<T>, what: &str) -> Result<T, String> {
+                futures_lite::future::or(async { Ok(t.await) }, async {
+                    smol::Timer::after(Duration::from_secs(20)).await;
+                    Err(format!("timeout:{what}"))
+                })
+                .await
+            }
             for (r1, r2) in rtasks {
-                let a = r1.await;
-                let b = r2.await;
+                let a = limited(r1, "reader").await.unwrap_or_else(|e| vec![e]);
+                let b = limited(r2, "reader").await.unwrap_or_else(|e| vec![e]);
                 recv.push(json!({"c2s": a, "s2c": b}));
             }
             for t in wtasks {
-                if let Err(e) = t.await {
-                    werr.push(e);
+                match limited(t, "writer").await {
+                    Ok(Ok(())) => {}
+                    Ok(Err(e)) => werr.push(e),
+                    Err(e) => werr.push(e),
                 }
             }
             json!({"recv": recv, "write_errors": werr, "ids": ids})
@@ -314,7 +324,58 @@ mod sm {
     }
 }
 
+/// Connections created concurrently from several threads (socketpairs wrapped in zlink
+/// connections of the given runtime's socket type): all identifiers must be distinct.
+fn ids(case: &Value) -> Value {
+    let threads = case["threads"].as_u64().unwrap() as usize;
+    let per = case["per_thread"].as_u64().unwrap() as usize;
+    let smol_rt = case["runtime"] == "smol";
+    let handles: Vec<_> = (0..threads)
+        .map(|_| {
+            std::thread::spawn(move || {
+                let mut v = Vec::with_capacity(per * 2);
+                if smol_rt {
+                    for _ in 0..per {
+                        let (a, b) = StdStream::pair().unwrap();
+                        let ca: Connection<zlink_smol::unix::Stream> =
+                            Connection::new(zlink_smol::unix::Stream::from(async_io::Async::new(a).unwrap()));
+                        let cb: Connection<zlink_smol::unix::Stream> =
+                            Connection::new(zlink_smol::unix::Stream::from(async_io::Async::new(b).unwrap()));
+                        v.push(ca.id());
+                        v.push(cb.id());
+                    }
+                } else {
+                    let rt = tokio::runtime::Builder::new_current_thread().enable_all().build().unwrap();
+                    let _g = rt.enter();
+                    for _ in 0..per {
+                        let (a, b) = StdStream::pair().unwrap();
+                        a.set_nonblocking(true).unwrap();
+                        b.set_nonblocking(true).unwrap();
+                        let ca: Connection<zlink_tokio::unix::Stream> = Connection::new(
+                            zlink_tokio::unix::Stream::from(tokio::net::UnixStream::from_std(a).unwrap()));
+                        let cb: Connection<zlink_tokio::unix::Stream> = Connection::new(
+                            zlink_tokio::unix::Stream::from(tokio::net::UnixStream::from_std(b).unwrap()));
+                        v.push(ca.id());
+                        v.push(cb.id());
+                    }
+                }
+                v
+            })
+        })
+        .collect();
+    let mut all: Vec<usize> = handles.into_iter().flat_map(|h| h.join().unwrap()).collect();
+    let n = all.len();
+    all.sort_unstable();
+    let dups = all.windows(2).filter(|w| w[0] == w[1]).count();
+    json!({"created": n, "duplicates": dups})
+}
+
 fn run_case(case: &Value) -> Value {
+    if case["kind"] == "ids" {
+        let mut out = ids(case);
+        out["id"] = case["id"].clone();
+        return out;
+    }
     let rt = case["runtime"].as_str().unwrap();
     let kind = case["kind"].as_str().unwrap();
     let mut out = match (rt, kind) {
